@@ -336,6 +336,8 @@ class Walker:
                                     fresh = f"{t.id}__v{self._ver}"
                                     ren = {t.id: ast.Name(id=fresh, ctx=ast.Load())}
                                     val = subst(val, ren)
+                                    # what was recorded so far spoke of the old value too
+                                    eff = [(k_, s_, subst(v_, ren) if isinstance(v_, ast.AST) else v_) for k_, s_, v_ in eff[:-1]] + [("assign", st, val)]
                                     env = {k_: (subst(v_, ren) if isinstance(v_, ast.AST) else v_) for k_, v_ in env.items()}
                                     bind = {k_: (subst(v_, ren) if isinstance(v_, ast.AST) else v_) for k_, v_ in bind.items()}
                                     if in_pc:
